@@ -194,9 +194,26 @@ def _rt(entry):
     return 1e-6
 
 
+_INPLACE = [0]
+
+
+def _warm(iso):
+    try:
+        iso.loading_at(float(numpy.median(iso.pressure(branch="ads"))))
+        iso.pressure_at(float(numpy.median(iso.loading(branch="ads"))))
+    except Exception:
+        pass
+
+
 def _transform(r, iso, force=None):
-    """Convert a copy to another representation. Returns (copy or None, description)."""
+    """Convert a copy to another representation. Returns (copy or None, description).
+
+    Every other copy has been queried before it is converted (its interpolators exist), as the isotherm of a user who
+    analyses, converts and analyses again would be."""
+    _INPLACE[0] += 1
     cp = gen.copy_point(iso)
+    if _INPLACE[0] % 2 == 0:
+        _warm(cp)
     pr = tuple(force[0]) if force else r.choice(RU.PRESSURE_REPR)
     lr = tuple(force[1]) if force else r.choice(RU.LOADING_REPR[:25])
     tu = r.choice(["K", "°C"])
@@ -355,6 +372,8 @@ def _run_isosteric(case, ctx):
     twins = []
     for iso in isos:
         cp = gen.copy_point(iso)
+        if case["seed"] % 2 == 0:
+            _warm(cp)  # (even seeds: the copy has been queried before it is converted)
         try:
             cp.convert_pressure(mode_to=pr[0], unit_to=pr[1])
             cp.convert_loading(basis_to=lr[0], unit_to=lr[1])
